@@ -364,7 +364,7 @@ func init() {
 			c.Glue = true
 			c.Seps = nil
 			for i, n := 0, 2+gen.Uniform(t, "glue.n", 6); i < n; i++ {
-				c.Seps = append(c.Seps, gen.Pick(t, "glue.sep", []string{" ", " ", "/* c */", "/**/", "// c\n", " /* d */ ", "\n"}))
+				c.Seps = append(c.Seps, gen.Pick(t, "glue.sep", []string{" ", " ", "/* c */", "/**/", "// c\n", " /* d */ ", "\n", "/* \"q\" */", "// \"q\"\n"}))
 			}
 		}
 		return c
@@ -421,6 +421,9 @@ func checkGlued(c *C15Case, v *ev.Verdict) *ev.Verdict {
 	class := "glued-comment-other"
 	if p2.LexMatches() && diff(p2.Text, want2) == "" {
 		class = "comment-glued-to-slash-token"
+		if lay.StringCase > 0 {
+			class = "comment-changes-token-stream"
+		}
 	}
 	return v.Failf(class, "a comment directly after a token changes the tree: %q: %s", p.Text, d)
 }
